@@ -47,7 +47,7 @@ GEN_CTORS = {'numpy.random.default_rng'}
 PURE_ROOTS = {'numpy', 'scipy', 'opt_einsum', 'itertools', 'functools', 'pickle', 'numba', 'math', 'copy', 'warnings'}
 CLOCKS = {'time.perf_counter', 'time.time', 'time.monotonic', 'time.process_time', 'time.perf_counter_ns', 'time.time_ns'}
 BAD_BUILTINS = {'getattr', 'setattr', 'delattr', 'eval', 'exec', 'globals', 'locals', 'vars', '__import__', 'compile',
-                'hash', 'id', 'input', 'breakpoint', 'memoryview', 'object'}
+                'hash', 'id', 'input', 'breakpoint'}
 MUT_METHODS_D = {'update', 'get', 'keys', 'values', 'items', 'pop', 'setdefault', 'clear', 'copy', 'append', 'extend',
                  'popitem', 'insert', 'remove', 'sort', 'reverse', '__contains__'}
 TIMING_KEYS = ['t']
@@ -609,9 +609,8 @@ class Tr:
                     return [self.U(n, f'clock value {n.id} escapes')]
                 if n.id in b.nested:
                     g = b.nested[n.id]
-                    if g.body_cmd is None or has_events(g.body_cmd):
-                        if P.final:
-                            return [self.U(n, f'effectful closure {n.id} used as a value')]
+                    if P.final and not P.is_pure(g, set()):
+                        return [self.U(n, f'effectful closure {n.id} used as a value')]
                 return []
             d = self.dotted(n)
             if d:
@@ -653,7 +652,7 @@ class Tr:
             g = self.lambda_fn(n)
             if g is None:
                 return [self.U(n, 'lambda not registered')]
-            if (g.body_cmd is None or has_events(g.body_cmd)) and P.final:
+            if P.final and not P.is_pure(g, set()):
                 return [self.U(n, 'effectful lambda used as a value')]
             return []
         if isinstance(n, ast.IfExp):
@@ -761,3 +760,1149 @@ class Tr:
             self.lift(it.id)
             return [('ev', ('ReadAll', it.id))]
         return self.expr(it)
+
+    # ---- calls
+    def args_of(self, n):
+        return list(n.args) + [k.value for k in n.keywords]
+
+    def callable_arg_events(self, a):
+        """a function valued argument handed to an external higher-order function (map, reduce, sorted(key=), ...):
+        the callee may call it any number of times"""
+        P = self.P
+        if isinstance(a, ast.Lambda) or (isinstance(a, ast.Name) and self.scope_of(a.id) is not None and
+                                         (a.id in self.scope_of(a.id).nested or a.id in self.scope_of(a.id).called)) or \
+                (isinstance(a, ast.Attribute) and (self.resolve_fn(a) or (None,))[0] == 'fn'):
+            fake = ast.Call(func=a, args=[], keywords=[])
+            ast.copy_location(fake, a)
+            body = seq(self.call_value(fake, a, user_args=[]))
+            if has_events(body):
+                return [('loop', P.site(self.fn, a, 'callback handed to an external higher-order function'), body)]
+            return []
+        return None
+
+    def generic_args(self, n):
+        out = []
+        for a in self.args_of(n):
+            ce = self.callable_arg_events(a)
+            out += ce if ce is not None else self.expr(a)
+        return out
+
+    def call(self, n):
+        P = self.P
+        f = n.func
+        d = self.dotted(f)
+        if d:
+            root = d.split('.')[0]
+            if d in GEN_CTORS:
+                return self.exprs(self.args_of(n)) + [self.U(n, 'generator constructed outside `x = default_rng(..)`')]
+            if d.startswith('numpy.random') or d == 'random' or d.startswith('random.'):
+                return self.generic_args(n) + [('ev', ('GlobalDraw', P.site(self.fn, n, f'call of {d}')))]
+            if d in CLOCKS:
+                return [self.U(n, f'clock {d} used outside the timing pattern')]
+            if root in PURE_ROOTS or root == 'time':
+                return self.generic_args(n)
+            if root != 'teneva':
+                return self.generic_args(n) + [self.U(n, f'call into unknown module {d}')]
+        r = self.resolve_fn(f)
+        if r:
+            if r[0] == 'fn':
+                return [self.call_fn(n, r[1])]
+            if r[0] == 'class':
+                return self.ctor(n, r[1], r[2], f'<obj@{n.lineno}:{n.col_offset}>')
+            return self.generic_args(n) + [self.U(n, f'teneva.{r[1]} is not exported')]
+        if isinstance(f, ast.Name):
+            b = self.scope_of(f.id)
+            if b is None:
+                if f.id in BAD_BUILTINS or f.id == 'super':
+                    return self.generic_args(n) + [self.U(n, f'builtin {f.id}')]
+                if f.id == 'print':
+                    self.in_log += 1
+                    out = self.generic_args(n)
+                    self.in_log -= 1
+                    return out
+                if f.id == 'isinstance' and n.args and self.gen_name(n.args[0]):
+                    return self.exprs(n.args[1:])
+                if hasattr(builtins, f.id):
+                    out = []
+                    for a in self.args_of(n):
+                        if isinstance(a, ast.Name) and self.is_dict(a.id):
+                            if f.id in ('len', 'list', 'dict', 'sorted', 'tuple', 'set', 'str', 'repr', 'bool', 'iter',
+                                        'enumerate', 'reversed', 'any', 'all', 'sum', 'min', 'max'):
+                                self.lift(a.id)
+                                out.append(('ev', ('ReadAll', a.id)))
+                            else:
+                                out.append(self.U(n, f'default dictionary {a.id} passed to builtin {f.id}'))
+                        else:
+                            ce = self.callable_arg_events(a)
+                            out += ce if ce is not None else self.expr(a)
+                    return out
+                if f.id in self.m.consts:
+                    return self.generic_args(n)
+                P.note(self.fn, n, f'call of unresolved name {f.id}: NameError at run time')
+                return [('raise',)]
+            if f.id == 'self' and self.fn.cls is not None and '__call__' in self.m.classes.get(self.fn.cls, {}) and \
+                    f.id in self.fn.params[:1]:
+                return [self.call_fn(n, self.m.classes[self.fn.cls]['__call__'], via_self='self')]
+            return self.call_value(n, f)
+        if isinstance(f, ast.Attribute):
+            g = self.gen_name(f.value)
+            if g:
+                if isinstance(f.value, ast.Name):
+                    self.lift(g)
+                return self.exprs(self.args_of(n)) + [('ev', ('DrawFrom', P.site(self.fn, n, f'{g}.{f.attr}'), g))]
+            if isinstance(f.value, ast.Name) and self.is_dict(f.value.id):
+                return self.dict_method(n, f.value.id, f.attr)
+            if isinstance(f.value, ast.Name) and f.value.id in self.objs:
+                m, c = self.objs[f.value.id]
+                meths = m.classes[c]
+                if f.attr in meths:
+                    return [self.call_fn(n, meths[f.attr], via_self=f.value.id)]
+                return self.generic_args(n) + [self.U(n, f'unknown method {c}.{f.attr}')]
+            if isinstance(f.value, ast.Call):
+                r2 = self.resolve_fn(f.value.func)
+                if r2 and r2[0] == 'class':
+                    obj = f'<obj@{f.value.lineno}:{f.value.col_offset}>'
+                    out = self.ctor(f.value, r2[1], r2[2], obj)
+                    meths = r2[1].classes[r2[2]]
+                    if f.attr in meths:
+                        self.objs[obj] = (r2[1], r2[2])
+                        out.append(self.call_fn(n, meths[f.attr], via_self=obj))
+                        del self.objs[obj]
+                        return out
+                    return out + self.generic_args(n) + [self.U(n, f'unknown method {r2[2]}.{f.attr}')]
+            if isinstance(f.value, ast.Name) and f.value.id == 'self' and self.fn.cls is not None:
+                return self.generic_args(n) + [self.U(n, f'call of self.{f.attr}, which is not a method')]
+            if f.attr in GEN_ONLY_METHODS and isinstance(f.value, ast.Name) and self.scope_of(f.value.id) is not None:
+                # receiver of a Generator-only method: it is a generator variable (next iteration translates it as DrawFrom)
+                P.add(self.scope_of(f.value.id).gen, f.value.id)
+            return self.expr(f.value) + self.generic_args(n)
+        if isinstance(f, ast.BoolOp) and isinstance(f.op, ast.Or):
+            # (a or b)(args): one of the alternatives is called
+            alts = []
+            for v in f.values:
+                fake = ast.Call(func=v, args=n.args, keywords=n.keywords)
+                ast.copy_location(fake, n)
+                alts.append(seq(self.call(fake)))
+            cur = alts[-1]
+            for a in reversed(alts[:-1]):
+                cur = ('if', P.site(self.fn, n, 'alternative callee'), a, cur)
+            return [cur]
+        return self.call_value(n, f)
+
+    def call_value(self, n, fexpr, user_args=None):
+        """call of a function value held in a variable / container / expression"""
+        P = self.P
+        org = self.origins(fexpr)
+        alts = []
+        for o in sorted(org, key=repr):
+            if o[0] == 'pure':
+                alts.append(seq(self.generic_args(n)))
+            elif o[0] == 'param':
+                alts.append(seq(self.call_param(n, o[1])))
+            elif o[0] == 'clos':
+                alts.append(self.call_fn(n, P.fns[o[1]]))
+            elif o[0] == 'glob':
+                alts.append(seq(self.generic_args(n) + [('ev', ('GlobalDraw', P.site(self.fn, n, 'call of an alias of numpy.random')))]))
+            else:
+                alts.append(seq(self.generic_args(n) + [self.U(n, 'call through a value of unknown origin: ' + str(o[1:]))]))
+        if not alts:
+            return self.generic_args(n) + [self.U(n, 'call through an expression that is not a known function value')]
+        pre = []
+        if not isinstance(fexpr, (ast.Name, ast.Lambda)):
+            # events of evaluating the callee expression itself (e.g. fh[k])
+            if isinstance(fexpr, ast.Subscript):
+                pre = self.expr(fexpr.slice)
+        # drop duplicates, join alternatives
+        uniq = []
+        for a in alts:
+            if a not in uniq:
+                uniq.append(a)
+        cur = uniq[-1]
+        for a in reversed(uniq[:-1]):
+            cur = ('if', P.site(self.fn, n, 'callee is one of several function values'), a, cur)
+        return pre + [cur]
+
+    def call_param(self, n, p):
+        """call of a user supplied callback held in parameter p (of this function or of an enclosing one)"""
+        P = self.P
+        b = self.scope_of(p)
+        P.add(b.called, p)
+        self.lift(p)
+        out = []
+        for a in self.args_of(n):
+            g = self.gen_name(a)
+            if g:
+                if isinstance(a, ast.Name):
+                    self.lift(g)
+                out.append(('ev', ('DrawFrom', P.site(self.fn, a, f'generator {g} handed to user callback {p}'), g)))
+            elif isinstance(a, ast.Name) and self.is_dict(a.id):
+                self.lift(a.id)
+                out.append(('ev', ('ReadAll', a.id)))
+            else:
+                ce = self.callable_arg_events(a)
+                out += ce if ce is not None else self.expr(a)
+        out.append(('ev', ('CallParam', P.site(self.fn, n, f'user callback {p}'), p)))
+        return out
+
+    def specials(self, F):
+        """(gen params, dict params, callable params) of F that a call site must bind, in a canonical order"""
+        P = self.P
+        lifted = sorted(P.lifted.get(F.qname, set()))
+        names = F.all_params + [x for x in lifted if x not in F.all_params]
+        gens, dicts, calls = [], [], []
+        for x in names:
+            b = F if x in F.bound else None
+            if b is None:
+                b = next((a for a in F.ancestors() if x in a.bound), None)
+            if b is None:
+                continue
+            if x in b.gen:
+                gens.append(x)
+            if x in b.dicts:
+                dicts.append(x)
+            if x in b.called:
+                calls.append(x)
+        if F.cls is not None and F.kind == 'def' and F.node.name != '__init__':
+            for g in sorted(P.genfields.get((F.module.name, F.cls), set())):
+                gens.append(g)
+        elif F.cls is not None and F.kind != 'def' or (F.cls is not None and F.parent is not None):
+            for g in sorted(P.lifted.get(F.qname, set())):
+                if g.startswith('self.') and g not in gens:
+                    gens.append(g)
+        return gens, dicts, calls
+
+    def fdef_of(self, F, p):
+        """kind of the default value of callable parameter p of F"""
+        if p not in F.defaults:
+            return ('FdNone',)
+        d = F.defaults[p]
+        if isinstance(d, ast.Constant):
+            return ('FdNone',)
+        if isinstance(d, ast.Lambda):
+            g = F.lambdas.get(id(d))
+            return ('FdClos', g.qname) if g else ('FdUnknown',)
+        if isinstance(d, ast.Name) and hasattr(builtins, d.id) and d.id not in BAD_BUILTINS and \
+                d.id not in F.module.funcs and d.id not in F.module.imports:
+            return ('FdPure',)
+        sub = Tr(self.P, F)
+        dd = sub.dotted(d)
+        if dd:
+            if dd.startswith('numpy.random') or dd == 'random' or dd.startswith('random.'):
+                return ('FdGlob', self.P.site(F, d, f'default value {dd} of parameter {p}'))
+            if dd.split('.')[0] in PURE_ROOTS:
+                return ('FdPure',)
+        r = sub.resolve_fn(d)
+        if r and r[0] == 'fn':
+            return ('FdClos', r[1].qname)
+        return ('FdUnknown',)
+
+    def call_fn(self, n, F, via_self=None):
+        return self.mk_call(n, F, list(n.args), list(n.keywords), via_self=via_self)
+
+    def mk_call(self, n, F, args, keywords, via_self=None):
+        """Call of the teneva function F: bind its special parameters, translate the other arguments generically"""
+        P = self.P
+        gens, dicts, calls = self.specials(F)
+        params = F.all_params
+        pre = []
+        amap = {}
+        star = any(isinstance(a, ast.Starred) for a in args) or any(k.arg is None for k in keywords)
+        extra = []
+        for i, a in enumerate(args):
+            if isinstance(a, ast.Starred):
+                extra.append(a.value)
+                break
+            if i < len(F.params) - (1 if F.is_method and F.params and F.params[0] == 'self' else 0):
+                amap[params[i]] = a
+            else:
+                extra.append(a)
+        for k in keywords:
+            if k.arg is None:
+                extra.append(k.value)
+            elif k.arg in params:
+                amap[k.arg] = k.value
+            else:
+                extra.append(k.value)
+        if star and (gens or dicts or calls):
+            pre.append(self.U(n, f'star arguments in a call of {F.qname}, which has seed / dictionary / callback parameters'))
+        sb, db, fb = [], [], []
+        for p in params:
+            a = amap.get(p)
+            handled = False
+            if p in gens:
+                handled = True
+                if a is None:
+                    dv = F.defaults.get(p)
+                    if isinstance(dv, ast.Constant) and dv.value is None:
+                        sb.append((p, ('SNone',)))
+                    elif isinstance(dv, ast.Constant) and isinstance(dv.value, int) and not isinstance(dv.value, bool):
+                        sb.append((p, ('SConst', dv.value)))
+                    else:
+                        sb.append((p, ('SOther',)))
+                else:
+                    g = self.gen_name(a)
+                    if g:
+                        if isinstance(a, ast.Name):
+                            self.lift(g)
+                        sb.append((p, ('SVar', g)))
+                    elif isinstance(a, ast.Constant) and a.value is None:
+                        sb.append((p, ('SNone',)))
+                    elif isinstance(a, ast.Constant) and isinstance(a.value, int) and not isinstance(a.value, bool):
+                        sb.append((p, ('SConst', a.value)))
+                    else:
+                        pre += self.expr(a)
+                        sb.append((p, ('SOther',)))
+            elif a is not None and self.gen_name(a):
+                # a generator / seed flows into parameter p: p is a generator parameter of F (next iteration binds it)
+                P.add(F.gen, p)
+                handled = True
+            if p in dicts:
+                handled = True
+                if a is None:
+                    db.append((p, ('DOwn',) if F.qname in P.owndicts and p in P.owndicts[F.qname] else ('DFresh',)))
+                elif isinstance(a, ast.Name) and self.is_dict(a.id):
+                    self.lift(a.id)
+                    db.append((p, ('DVar', a.id)))
+                else:
+                    pre += self.expr(a)
+                    db.append((p, ('DFresh',)))
+            elif a is not None and isinstance(a, ast.Name) and self.is_dict(a.id):
+                P.add(F.dicts, p)
+                handled = True
+            if p in calls:
+                handled = True
+                fb.append((p, self.farg(n, a, pre)))
+            elif a is not None and isinstance(a, ast.Name) and self.scope_of(a.id) is not None and \
+                    a.id in self.scope_of(a.id).called and not handled:
+                pass  # a callback handed to a parameter that is never called: plain data
+            if a is not None and isinstance(a, ast.Name) and self.is_clock(a.id):
+                P.add(F.clock, p)
+                handled = True
+            if not handled and a is not None:
+                ce = self.callable_arg_events(a) if p not in calls else None
+                # an effectful closure handed to a parameter that the callee does not call directly: treat the
+                # parameter as called (conservative) in the next iteration
+                if ce:
+                    P.add(F.called, p)
+                    pre += ce
+                else:
+                    pre += self.expr(a)
+        # lifted (captured) variables and generator fields of self
+        for x in gens:
+            if x in params:
+                continue
+            if x.startswith('self.'):
+                if via_self is None or via_self == 'self':
+                    if self.fn.cls == F.cls and (x in self.class_genfields()):
+                        sb.append((x, ('SVar', x)))
+                        if self.fn.parent is not None or self.fn.kind == 'lambda':
+                            P.add(P.lifted.setdefault(self.fn.qname, set()), x)
+                    else:
+                        pre.append(self.U(n, f'method of another object called without a known receiver ({x})'))
+                else:
+                    sb.append((x, ('SVar', f'{via_self}.{x[5:]}')))
+            elif self.scope_of(x) is not None:
+                self.lift(x)
+                sb.append((x, ('SVar', x)))
+            else:
+                pre.append(self.U(n, f'captured variable {x} of {F.qname} is not in scope at the call'))
+        for x in dicts:
+            if x in params:
+                continue
+            if self.scope_of(x) is not None and self.is_dict(x):
+                self.lift(x)
+                db.append((x, ('DVar', x)))
+            else:
+                pre.append(self.U(n, f'captured dictionary {x} of {F.qname} is not in scope at the call'))
+        for x in calls:
+            if x in params:
+                continue
+            if self.scope_of(x) is not None:
+                self.lift(x)
+                P.add(self.scope_of(x).called, x)
+                fb.append((x, ('FVar', x)))
+            else:
+                pre.append(self.U(n, f'captured callback {x} of {F.qname} is not in scope at the call'))
+        for a in extra:
+            pre += self.expr(a)
+        site = P.site(self.fn, n, f'call of {F.qname}')
+        return seq(pre + [('ev', ('Call', site, F.qname, sb, db, fb))])
+
+    def farg(self, n, a, pre):
+        """what is bound to a callable parameter of the callee"""
+        P = self.P
+        if a is None:
+            return ('FOmit',)
+        if isinstance(a, ast.Constant):
+            return ('FUser',)
+        org = self.origins(a)
+        if len(org) == 1:
+            o = next(iter(org))
+            if o[0] == 'param':
+                b = self.scope_of(o[1])
+                P.add(b.called, o[1])
+                self.lift(o[1])
+                return ('FVar', o[1])
+            if o[0] == 'pure':
+                if not isinstance(a, (ast.Name, ast.Attribute)):
+                    pre += self.expr(a)
+                return ('FUser',)
+            if o[0] == 'glob':
+                return ('FGlob', P.site(self.fn, a, 'a numpy.random function handed over as callback'))
+            if o[0] == 'clos':
+                C = P.fns[o[1]]
+                gens, dicts, calls = self.specials(C)
+                cap = []
+                bad = None
+                for x in gens:
+                    if x in C.all_params:
+                        bad = f'function {C.qname} with a seed parameter handed over as callback'
+                    elif x.startswith('self.') or self.scope_of(x) is not None:
+                        if not x.startswith('self.'):
+                            self.lift(x)
+                        cap.append((x, ('SVar', x)))
+                    else:
+                        bad = f'captured variable {x} not in scope'
+                if [x for x in dicts if x not in C.all_params] or [x for x in calls if x not in C.all_params]:
+                    bad = f'closure {C.qname} captures a dictionary / callback'
+                if bad:
+                    pre.append(self.U(n, bad))
+                    return ('FUser',)
+                return ('FClos', C.qname, cap)
+        # several possible origins: fine if all but one parameter are effect free
+        pars = [o[1] for o in org if o[0] == 'param']
+        rest_ok = all(o[0] == 'pure' or (o[0] == 'clos' and (not P.final or P.is_pure(P.fns[o[1]], set())))
+                      for o in org if o[0] != 'param')
+        if rest_ok and len(pars) <= 1:
+            if not isinstance(a, (ast.Name, ast.Attribute)):
+                pre += self.expr(a)
+            if pars:
+                P.add(self.scope_of(pars[0]).called, pars[0])
+                self.lift(pars[0])
+                return ('FVar', pars[0])
+            return ('FUser',)
+        pre.append(self.U(n, f'callback argument of unknown origin {sorted(org, key=repr)}'))
+        return ('FUser',)
+
+    def ctor(self, n, m, cname, obj):
+        """constructor call of a teneva class: Call of __init__, then the generator fields are rebuilt from the seed argument
+        in the caller's frame (exact when __init__ does not draw from them, which is checked)"""
+        P = self.P
+        meths = m.classes[cname]
+        init = meths.get('__init__')
+        if init is None:
+            return self.generic_args(n)
+        out = [self.call_fn(n, init)]
+        for fld, par in sorted(P.geninit.get((m.name, cname), {}).items()):
+            # the argument bound to `par`
+            a = None
+            ps = init.all_params
+            for i, x in enumerate(n.args):
+                if i < len(ps) and ps[i] == par:
+                    a = x
+            for k in n.keywords:
+                if k.arg == par:
+                    a = k.value
+            tgt = f'{obj}.{fld[5:]}'
+            if a is None or (isinstance(a, ast.Constant) and a.value is None):
+                out.append(('ev', ('MkGenNone', tgt)))
+            elif self.gen_name(a):
+                out.append(('ev', ('MkGen', tgt, self.gen_name(a))))
+            elif isinstance(a, ast.Constant) and isinstance(a.value, int):
+                out.append(('ev', ('MkGenConst', tgt, a.value)))
+            else:
+                out.append(self.U(n, f'seed argument of the constructor {cname} is not a variable or constant'))
+            if P.final and P.draws_field(init, fld, set()):
+                out.append(self.U(n, f'{cname}.__init__ draws from {fld}; constructor call cannot be split'))
+        return out
+
+    def dict_method(self, n, d, meth):
+        P = self.P
+        self.lift(d)
+        args = self.args_of(n)
+        if meth == 'update':
+            keys, pre, ok = [], [], True
+            if len(n.args) == 1 and isinstance(n.args[0], ast.Dict):
+                for k, v in zip(n.args[0].keys, n.args[0].values):
+                    ks = const_str(k) if k is not None else None
+                    if ks is None:
+                        ok = False
+                    else:
+                        keys.append(ks)
+                    pre += self.expr(v)
+            elif n.args:
+                ok = False
+                pre += self.exprs(n.args)
+            for k in n.keywords:
+                if k.arg is None:
+                    ok = False
+                else:
+                    keys.append(k.arg)
+                pre += self.expr(k.value)
+            if ok:
+                return pre + [('ev', ('Reset', P.site(self.fn, n, f'{d}.update'), d, keys))]
+            return pre + [('ev', ('WriteAny', d))]
+        if meth == 'get':
+            k = const_str(n.args[0]) if n.args else None
+            rest = self.exprs(args[1:])
+            if k is not None:
+                return rest + [('ev', ('LogRead' if self.in_log else 'Read', d, k))]
+            return self.exprs(args) + [('ev', ('ReadAll', d))]
+        if meth in ('keys', 'values', 'items', 'copy', '__len__'):
+            return [] if self.in_log else [('ev', ('ReadAll', d))]
+        if meth == 'clear':
+            return [('ev', ('Clear', d))]
+        if meth == 'pop':
+            k = const_str(n.args[0]) if n.args else None
+            if k is not None:
+                return self.exprs(args[1:]) + [('ev', ('Read', d, k)), ('ev', ('Write', P.site(self.fn, n, f'{d}.pop'), d, k))]
+            return self.exprs(args) + [('ev', ('ReadAll', d)), ('ev', ('WriteAny', d))]
+        if meth in ('append', 'extend', 'insert', 'remove', 'sort', 'reverse', 'popitem', 'add', 'discard'):
+            return self.exprs(args) + [('ev', ('WriteAny', d))]
+        return self.exprs(args) + [self.U(n, f'method {meth} of default dictionary {d}')]
+
+    # ---- statements
+    def clock_parts(self, e):
+        """number of clock calls in e if e is built only from clock calls, clock tainted names, constants and arithmetic;
+        None if e contains no clock value at all; -1 if it mixes clock values with anything else"""
+        n_clock, other = 0, 0
+        stack = [e]
+        while stack:
+            x = stack.pop()
+            if isinstance(x, ast.Call) and self.dotted(x.func) in CLOCKS and not x.args and not x.keywords:
+                n_clock += 1
+            elif isinstance(x, ast.Name) and self.is_clock(x.id):
+                n_clock += 0
+                other += 0
+                stack_mark = True
+                n_clock += 0
+                self._saw_taint = True
+            elif isinstance(x, ast.Constant):
+                pass
+            elif isinstance(x, ast.BinOp):
+                stack += [x.left, x.right]
+            elif isinstance(x, ast.UnaryOp):
+                stack.append(x.operand)
+            else:
+                other += 1
+        return n_clock, other
+
+    def has_clock(self, e):
+        for x in ast.walk(e):
+            if isinstance(x, ast.Call) and self.dotted(x.func) in CLOCKS:
+                return True
+            if isinstance(x, ast.Name) and isinstance(x.ctx, ast.Load) and self.is_clock(x.id):
+                return True
+        return False
+
+    def gen_source(self, v):
+        """if v is `teneva._rand(e)` / `default_rng(e)`: the event constructor for target x, else None"""
+        if not isinstance(v, ast.Call):
+            return None
+        r = self.resolve_fn(v.func)
+        is_rand = bool(r and r[0] == 'fn' and r[1].qname == 'utils._rand')
+        if not is_rand and self.dotted(v.func) not in GEN_CTORS:
+            return None
+        args = self.args_of(v)
+        if len(args) > 1:
+            return lambda x: [self.U(v, 'generator constructor with several arguments')]
+        a = args[0] if args else None
+        if a is None or (isinstance(a, ast.Constant) and a.value is None):
+            return lambda x: [('ev', ('MkGenNone', x))]
+        g = self.gen_name(a)
+        if g:
+            if isinstance(a, ast.Name):
+                self.lift(g)
+            return lambda x: [('ev', ('MkGen', x, g))]
+        if isinstance(a, ast.Name) and self.scope_of(a.id) is not None:
+            self.P.add(self.scope_of(a.id).gen, a.id)
+            return lambda x: [('ev', ('MkGen', x, a.id))]
+        if isinstance(a, ast.Constant) and isinstance(a.value, int) and not isinstance(a.value, bool):
+            return lambda x: [('ev', ('MkGenConst', x, a.value))]
+        return lambda x: self.expr(a) + [self.U(v, 'seed expression of a generator constructor is not a variable or constant')]
+
+    def assign_target(self, t, value=None):
+        P = self.P
+        if isinstance(t, ast.Name):
+            if self.is_dict(t.id):
+                return [self.U(t, f'default dictionary variable {t.id} is rebound')]
+            if self.is_gen(t.id) and t.id in self.fn.bound:
+                return [self.U(t, f'generator / seed variable {t.id} assigned from an expression that is not a generator constructor')]
+            if value is not None and isinstance(value, ast.Call):
+                r = self.resolve_fn(value.func)
+                if r and r[0] == 'class':
+                    self.objs[t.id] = (r[1], r[2])
+            return []
+        if isinstance(t, ast.Subscript):
+            if isinstance(t.value, ast.Name) and self.is_dict(t.value.id):
+                d = t.value.id
+                self.lift(d)
+                k = const_str(t.slice)
+                if k is not None:
+                    return [('ev', ('Write', P.site(self.fn, t, f'{d}[{k!r}] = ...'), d, k))]
+                return self.expr(t.slice) + [('ev', ('WriteAny', d))]
+            return self.expr(t.value) + self.expr(t.slice)
+        if isinstance(t, ast.Attribute):
+            if self.gen_name(t):
+                return [self.U(t, f'generator field {self.gen_name(t)} assigned from an expression that is not a generator constructor')]
+            return self.expr(t.value)
+        if isinstance(t, (ast.Tuple, ast.List)):
+            out = []
+            for e in t.elts:
+                out += self.assign_target(e)
+            return out
+        if isinstance(t, ast.Starred):
+            return self.assign_target(t.value)
+        return [self.U(t, f'assignment target {type(t).__name__}')]
+
+    def stmts(self, ss):
+        out = []
+        for s in ss:
+            if self.try_depth:
+                out.append(('if', self.P.site(self.fn, s, 'statement in a try block may raise'), ('raise',), ('skip',)))
+            out += self.stmt(s)
+        return out
+
+    def stmt(self, s):
+        P = self.P
+        if isinstance(s, ast.Expr):
+            if isinstance(s.value, ast.Constant):
+                return []
+            return self.expr(s.value)
+        if isinstance(s, (ast.Assign, ast.AnnAssign)):
+            targets = s.targets if isinstance(s, ast.Assign) else [s.target]
+            v = s.value
+            if v is None:
+                return []
+            # timing pattern
+            if self.has_clock(v):
+                # permitted only as argument of a teneva call (handled by mk_call) or in the two assignment shapes
+                cnt, other = self.clock_parts(v)
+                if other == 0 and len(targets) == 1:
+                    t = targets[0]
+                    if isinstance(t, ast.Name):
+                        P.add(self.fn.clock, t.id)
+                        return [('ev', ('Clock',))] * cnt
+                    if isinstance(t, ast.Subscript) and isinstance(t.value, ast.Name) and self.is_dict(t.value.id) and \
+                            const_str(t.slice) is not None:
+                        self.lift(t.value.id)
+                        return [('ev', ('Clock',))] * cnt + [('ev', ('WriteT', t.value.id, const_str(t.slice)))]
+                    return [self.U(s, 'clock value stored somewhere else than a variable or a constant key of a tracked dictionary')]
+                # otherwise fall through: generic translation flags the escaping clock value (unless it is a call argument)
+            gs = self.gen_source(v)
+            if gs is not None:
+                if len(targets) == 1 and isinstance(targets[0], ast.Name):
+                    P.add(self.fn.gen, targets[0].id)
+                    return gs(targets[0].id)
+                if len(targets) == 1 and isinstance(targets[0], ast.Attribute) and isinstance(targets[0].value, ast.Name) \
+                        and targets[0].value.id == 'self' and self.fn.cls is not None:
+                    fld = 'self.' + targets[0].attr
+                    key = (self.m.name, self.fn.cls)
+                    P.add(P.genfields.setdefault(key, set()), fld)
+                    if self.fn.node.name == '__init__' and self.fn.parent is None:
+                        a = self.args_of(v)
+                        if a and isinstance(a[0], ast.Name):
+                            if P.geninit.setdefault(key, {}).get(fld) != a[0].id:
+                                P.geninit[key][fld] = a[0].id
+                                P.changed = True
+                    return gs(fld)
+                return gs('?') + [self.U(s, 'generator stored into something else than a variable or a field of self')]
+            if isinstance(v, ast.JoinedStr) or (len(targets) == 1 and isinstance(targets[0], ast.Name) and
+                                                  targets[0].id in self.logvars):
+                self.in_log += 1
+                out = self.expr(v)
+                self.in_log -= 1
+            else:
+                out = self.expr(v)
+            for t in targets:
+                out += self.assign_target(t, v)
+            return out
+        if isinstance(s, ast.AugAssign):
+            t = s.target
+            if isinstance(t, ast.Name) and t.id in self.logvars:
+                self.in_log += 1
+                out = self.expr(s.value)
+                self.in_log -= 1
+                return out
+            if isinstance(t, ast.Subscript) and isinstance(t.value, ast.Name) and self.is_dict(t.value.id):
+                d = t.value.id
+                self.lift(d)
+                k = const_str(t.slice)
+                if k is not None:
+                    return [('ev', ('Read', d, k))] + self.expr(s.value) + \
+                           [('ev', ('Write', P.site(self.fn, s, f'{d}[{k!r}] op= ...'), d, k))]
+                return self.expr(t.slice) + [('ev', ('ReadAll', d))] + self.expr(s.value) + [('ev', ('WriteAny', d))]
+            pre = []
+            if isinstance(t, ast.Name):
+                if self.is_gen(t.id) or self.is_dict(t.id) or self.is_clock(t.id):
+                    pre = [self.U(s, f'augmented assignment to special variable {t.id}')]
+            else:
+                pre = self.assign_target(t)
+            return pre + self.expr(s.value)
+        if isinstance(s, ast.Return):
+            out = []
+            if s.value is not None:
+                if isinstance(s.value, ast.Name) and self.is_dict(s.value.id):
+                    out.append(self.U(s, f'default dictionary {s.value.id} returned'))
+                else:
+                    out += self.expr(s.value)
+            return out + [('ret',)]
+        if isinstance(s, ast.If):
+            t = self.expr(s.test)
+            a, b = seq(self.stmts(s.body)), seq(self.stmts(s.orelse))
+            if has_events(a) or has_events(b):
+                return t + [('if', P.site(self.fn, s, 'if'), a, b)]
+            return t
+        if isinstance(s, ast.For):
+            it = self.iter_expr(s.iter)
+            tg = self.assign_target(s.target)
+            body = seq(tg + self.stmts(s.body))
+            out = it
+            if has_events(body):
+                out = out + [('loop', P.site(self.fn, s, 'for'), body)]
+            oe = seq(self.stmts(s.orelse))
+            if has_events(oe):
+                out.append(('if', P.site(self.fn, s, 'for-else'), oe, ('skip',)))
+            return out
+        if isinstance(s, ast.While):
+            t = self.expr(s.test)
+            body = seq(self.stmts(s.body) + t)
+            out = list(t)
+            if has_events(body):
+                out.append(('loop', P.site(self.fn, s, 'while'), body))
+            oe = seq(self.stmts(s.orelse))
+            if has_events(oe):
+                out.append(('if', P.site(self.fn, s, 'while-else'), oe, ('skip',)))
+            return out
+        if isinstance(s, ast.Break):
+            return [('brk',)]
+        if isinstance(s, ast.Continue):
+            return [('cont',)]
+        if isinstance(s, ast.Pass):
+            return []
+        if isinstance(s, ast.Raise):
+            return self.expr(s.exc) + self.expr(s.cause) + [('raise',)]
+        if isinstance(s, ast.Assert):
+            return self.expr(s.test) + [('if', P.site(self.fn, s, 'assert'), seq(self.expr(s.msg) + [('raise',)]), ('skip',))]
+        if isinstance(s, ast.Try):
+            self.try_depth += 1
+            body = self.stmts(s.body)
+            self.try_depth -= 1
+            body += self.stmts(s.orelse)
+            hs = [seq(self.expr(h.type) + self.stmts(h.body)) for h in s.handlers]
+            cur = ('raise',) if not hs else hs[-1]
+            for h in reversed(hs[:-1]):
+                cur = ('if', P.site(self.fn, s, 'except clause'), h, cur)
+            fin = self.stmts(s.finalbody)
+            out = [('try', seq(body), cur)]
+            if has_events(seq(fin)):
+                out.append(self.U(s, 'finally block with events'))
+            return out
+        if isinstance(s, ast.With):
+            out = []
+            for it in s.items:
+                out += self.expr(it.context_expr)
+                if it.optional_vars is not None:
+                    out += self.assign_target(it.optional_vars)
+            return out + self.stmts(s.body)
+        if isinstance(s, ast.FunctionDef):
+            out = []
+            for d in s.decorator_list:
+                dd = self.dotted(d.func if isinstance(d, ast.Call) else d)
+                if not (dd and dd.split('.')[0] == 'numba'):
+                    out.append(self.U(s, 'decorated nested function'))
+            a = s.args
+            return out + self.exprs(a.defaults + [d for d in a.kw_defaults if d is not None])
+        if isinstance(s, ast.Delete):
+            out = []
+            for t in s.targets:
+                if isinstance(t, ast.Subscript) and isinstance(t.value, ast.Name) and self.is_dict(t.value.id):
+                    out += self.assign_target(t)
+                elif isinstance(t, ast.Name) and (self.is_dict(t.id) or self.is_gen(t.id)):
+                    out.append(self.U(s, f'del {t.id}'))
+            return out
+        if isinstance(s, (ast.Global, ast.Nonlocal)):
+            return [self.U(s, 'global / nonlocal statement (module level state)')]
+        if isinstance(s, (ast.Import, ast.ImportFrom)):
+            return [self.U(s, 'import inside a function')]
+        return [self.U(s, f'statement {type(s).__name__}')]
+
+    def function(self):
+        f = self.fn
+        if f.kind == 'lambda':
+            return seq(self.expr(f.node.body) + [('ret',)])
+        out = []
+        for d in f.node.decorator_list:
+            if isinstance(d, ast.Name) and d.id == 'property' and f.cls is not None:
+                continue
+            dd = self.dotted(d.func if isinstance(d, ast.Call) else d)
+            if dd and dd.split('.')[0] == 'numba':
+                continue
+            out.append(self.U(f.node, 'decorated function'))
+        if f.vararg and False:
+            pass
+        return seq(out + self.stmts(f.node.body))
+
+
+RAND_PINNED = ("[If(test=BoolOp(op=Or(), values=[Compare(left=Name(id='seed', ctx=Load()), ops=[Is()], "
+               "comparators=[Constant(value=None)]), Call(func=Name(id='isinstance', ctx=Load()), args=[Name(id='seed', "
+               "ctx=Load()), Name(id='int', ctx=Load())], keywords=[])]), body=[Return(value=Call(func=Attribute(value="
+               "Attribute(value=Name(id='np', ctx=Load()), attr='random', ctx=Load()), attr='default_rng', ctx=Load()), "
+               "args=[Name(id='seed', ctx=Load())], keywords=[]))], orelse=[Return(value=Name(id='seed', ctx=Load()))])]")
+
+
+def mutable_default(d):
+    if isinstance(d, (ast.Dict, ast.List, ast.Set, ast.ListComp, ast.DictComp, ast.SetComp)):
+        return True
+    if isinstance(d, ast.Call) and isinstance(d.func, ast.Name) and d.func.id in ('dict', 'list', 'set', 'defaultdict',
+                                                                                   'OrderedDict', 'bytearray'):
+        return True
+    return False
+
+
+def strip_sites(c):
+    if isinstance(c, tuple):
+        if c and c[0] in ('if', 'loop'):
+            return (c[0],) + tuple(strip_sites(x) for x in c[2:])
+        if c and c[0] in ('GlobalDraw',):
+            return (c[0],)
+        if c and c[0] in ('DrawFrom', 'CallParam', 'Call', 'Reset', 'Write', 'FGlob', 'FdGlob'):
+            return (c[0],) + tuple(strip_sites(x) for x in c[2:])
+        return tuple(strip_sites(x) for x in c)
+    if isinstance(c, list):
+        return [strip_sites(x) for x in c]
+    return c
+
+
+def translate(repo):
+    P = Program(repo)
+    P.lifted, P.genfields, P.geninit, P.owndicts = {}, {}, {}, {}
+    P.final = False
+    P._notes = []
+    P.note = lambda fn, n, msg: P._notes.append(dict(fn=fn.qname, line=getattr(n, 'lineno', fn.line), note=msg))
+
+    def draws_field(F, fld, seen):
+        if F.qname in seen or F.body_cmd is None:
+            return False
+        seen.add(F.qname)
+
+        def walk(c):
+            if c[0] == 'ev':
+                e = c[1]
+                if e[0] == 'DrawFrom' and e[2] == fld:
+                    return True
+                if e[0] == 'Call' and any(p == fld for p, _ in e[3]):
+                    return draws_field(P.fns[e[2]], fld, seen)
+                return False
+            if c[0] == 'seq':
+                return any(walk(x) for x in c[1])
+            if c[0] in ('if', 'try'):
+                return any(walk(x) for x in c[-2:])
+            if c[0] == 'loop':
+                return walk(c[2])
+            return False
+        return walk(F.body_cmd)
+    P.draws_field = draws_field
+
+    def is_pure(F, seen):
+        if F.qname in seen:
+            return True
+        if F.body_cmd is None:
+            return False
+        seen.add(F.qname)
+        tr = Tr(P, F)
+
+        def walk(c):
+            if c[0] == 'ev':
+                e = c[1]
+                if e[0] == 'Call':
+                    return not e[3] and not e[4] and all(v[0] in ('FOmit', 'FUser') for _, v in e[5]) and \
+                        is_pure(P.fns[e[2]], seen)
+                if e[0] == 'CallParam':
+                    d = tr.fdef_of(F, e[2]) if e[2] in F.all_params else ('FdUnknown',)
+                    return d[0] in ('FdNone', 'FdPure') or (d[0] == 'FdClos' and is_pure(P.fns[d[1]], seen))
+                return False
+            if c[0] == 'seq':
+                return all(walk(x) for x in c[1])
+            if c[0] in ('if', 'try'):
+                return all(walk(x) for x in c[-2:])
+            if c[0] == 'loop':
+                return walk(c[2])
+            return True
+        return walk(F.body_cmd)
+    P.is_pure = is_pure
+
+    fns = list(P.fns.values())
+    # static seeds of the fixpoint
+    for f in fns:
+        for p in f.params + f.kwonly:
+            if p == 'seed':
+                f.gen.add(p)
+            if p in f.defaults and mutable_default(f.defaults[p]):
+                f.dicts.add(p)
+                P.owndicts.setdefault(f.qname, set()).add(p)
+    prev = None
+    for it in range(20):
+        P.changed = False
+        P.sites, P._notes = [], []
+        for f in fns:
+            f.new_cmd = Tr(P, f).function()
+        cur = {f.qname: strip_sites(f.new_cmd) for f in fns}
+        for f in fns:
+            f.body_cmd = f.new_cmd
+        if not P.changed and cur == prev:
+            if P.final:
+                break
+            P.final = True
+        prev = cur
+    else:
+        P.init_problems.append((0, 'translator fixpoint did not converge'))
+    # utils._rand must have exactly the pinned shape; it is the primitive behind MkGen
+    rf = P.fns.get('utils._rand')
+    if rf is None:
+        P.init_problems.append((0, 'teneva/utils.py has no _rand'))
+    else:
+        body = [s for s in rf.node.body if not (isinstance(s, ast.Expr) and isinstance(s.value, ast.Constant))]
+        ok = ast.dump(ast.Module(body=body, type_ignores=[]).body[0] if False else body) == RAND_PINNED \
+            if False else ('[' + ', '.join(ast.dump(s) for s in body) + ']') == RAND_PINNED
+        ok = ok and rf.params == ['seed'] and isinstance(rf.defaults.get('seed'), ast.Constant) and \
+            rf.defaults['seed'].value is None and not rf.node.decorator_list
+        if ok:
+            rf.body_cmd = ('ev', ('RandPrim',))
+        else:
+            rf.body_cmd = ('ev', ('Unknown', f'utils._rand:{rf.line}: _rand does not have the pinned shape '
+                                   '(int / None -> default_rng(seed), otherwise the object itself)'))
+    return P
+
+
+# --------------------------------------------------------------------------- Coq output
+def cstr(s):
+    s = ''.join(ch if 32 <= ord(ch) < 127 else '?' for ch in s)
+    return '"' + s.replace('"', '""') + '"'
+
+
+def clist(xs):
+    return '[' + '; '.join(xs) + ']'
+
+
+def zl(z):
+    return f'({int(z)})%Z'
+
+
+def c_sarg(a):
+    if a[0] == 'SConst':
+        return f'(SConst {zl(a[1])})'
+    return f'(SVar {cstr(a[1])})' if a[0] == 'SVar' else a[0]
+
+
+def c_darg(a):
+    return f'(DVar {cstr(a[1])})' if a[0] == 'DVar' else a[0]
+
+
+def c_farg(a):
+    if a[0] == 'FVar':
+        return f'(FVar {cstr(a[1])})'
+    if a[0] == 'FClos':
+        return f'(FClos {cstr(a[1])} {clist(f"({cstr(p)}, {c_sarg(v)})" for p, v in a[2])})'
+    if a[0] == 'FGlob':
+        return f'(FGlob {a[1]})'
+    return a[0]
+
+
+def c_fdef(a):
+    if a[0] == 'FdGlob':
+        return f'(FdGlob {a[1]})'
+    if a[0] == 'FdClos':
+        return f'(FdClos {cstr(a[1])})'
+    return a[0]
+
+
+def c_event(e):
+    k = e[0]
+    if k in ('MkGen',):
+        return f'MkGen {cstr(e[1])} {cstr(e[2])}'
+    if k == 'MkGenConst':
+        return f'MkGenConst {cstr(e[1])} {zl(e[2])}'
+    if k in ('MkGenNone', 'WriteAny', 'Clear', 'ReadAll'):
+        return f'{k} {cstr(e[1])}'
+    if k in ('RandPrim', 'Clock'):
+        return k
+    if k == 'GlobalDraw':
+        return f'GlobalDraw {e[1]}'
+    if k == 'DrawFrom':
+        return f'DrawFrom {e[1]} {cstr(e[2])}'
+    if k == 'CallParam':
+        return f'CallParam {e[1]} {cstr(e[2])}'
+    if k == 'Call':
+        sb = clist(f'({cstr(p)}, {c_sarg(v)})' for p, v in e[3])
+        db = clist(f'({cstr(p)}, {c_darg(v)})' for p, v in e[4])
+        fb = clist(f'({cstr(p)}, {c_farg(v)})' for p, v in e[5])
+        return f'Call {e[1]} {cstr(e[2])} {sb} {db} {fb}'
+    if k == 'Reset':
+        return f'Reset {e[1]} {cstr(e[2])} {clist(cstr(x) for x in e[3])}'
+    if k in ('Read', 'LogRead', 'WriteT'):
+        return f'{k} {cstr(e[1])} {cstr(e[2])}'
+    if k == 'Write':
+        return f'Write {e[1]} {cstr(e[2])} {cstr(e[3])}'
+    if k == 'Unknown':
+        return f'Unknown {cstr(e[1])}'
+    raise ValueError(k)
+
+
+def c_cmd(c, ind=2):
+    sp = ' ' * ind
+    k = c[0]
+    if k == 'skip':
+        return 'Skip'
+    if k == 'ev':
+        return f'Ev ({c_event(c[1])})'
+    if k == 'seq':
+        xs = c[1]
+        out = c_cmd(xs[-1], ind)
+        for x in reversed(xs[:-1]):
+            out = f'Seq ({c_cmd(x, ind)})\n{sp}({out})'
+        return out
+    if k == 'if':
+        return f'If {c[1]} ({c_cmd(c[2], ind + 2)})\n{sp}  ({c_cmd(c[3], ind + 2)})'
+    if k == 'loop':
+        return f'Loop {c[1]} ({c_cmd(c[2], ind + 2)})'
+    if k == 'try':
+        return f'Try ({c_cmd(c[1], ind + 2)})\n{sp}  ({c_cmd(c[2], ind + 2)})'
+    return {'ret': 'Return', 'brk': 'Break', 'cont': 'Continue', 'raise': 'Raise'}[k]
+
+
+def unknowns(c, out):
+    if c[0] == 'ev':
+        if c[1][0] in ('Unknown', 'GlobalDraw'):
+            out.append(c[1])
+    elif c[0] == 'seq':
+        for x in c[1]:
+            unknowns(x, out)
+    elif c[0] in ('if', 'try'):
+        unknowns(c[-2], out)
+        unknowns(c[-1], out)
+    elif c[0] == 'loop':
+        unknowns(c[2], out)
+    return out
+
+
+def walk_events(c):
+    if c[0] == 'ev':
+        yield c[1]
+    elif c[0] == 'seq':
+        for x in c[1]:
+            yield from walk_events(x)
+    elif c[0] in ('if', 'try'):
+        yield from walk_events(c[-2])
+        yield from walk_events(c[-1])
+    elif c[0] == 'loop':
+        yield from walk_events(c[2])
+
+
+def universe(P):
+    """for every default dictionary (f, p): the string keys written under it by f or by any function it is handed to"""
+    out = []
+    for q in sorted(P.owndicts):
+        for p in sorted(P.owndicts[q]):
+            keys, seen, todo = [], set(), [(q, p)]
+            while todo:
+                g, v = todo.pop()
+                if (g, v) in seen:
+                    continue
+                seen.add((g, v))
+                for e in walk_events(P.fns[g].body_cmd):
+                    if e[0] == 'Reset' and e[2] == v:
+                        keys += [k for k in e[3] if k not in keys]
+                    elif e[0] == 'Write' and e[2] == v and e[3] not in keys:
+                        keys.append(e[3])
+                    elif e[0] == 'WriteT' and e[1] == v and e[2] not in keys:
+                        keys.append(e[2])
+                    elif e[0] == 'Call':
+                        for pp, a in e[4]:
+                            if a == ('DVar', v):
+                                todo.append((e[2], pp))
+            out.append(((q, p), keys))
+    return out
+
+
+def emit(P):
+    """returns (coq source, report dict)"""
+    lines = ['(* GENERATED by harness/skeleton_c10.py from the working tree of teneva -- do not edit *)',
+             'From Coq Require Import String List ZArith.', 'From TV Require Import Model.Effects.',
+             'Import ListNotations.', 'Open Scope string_scope.', '']
+    names = []
+    report = dict(functions=[], sites=P.sites, notes=P._notes, module_problems=[], seeded_exported=[],
+                  flagged=[], rules=RULES)
+    problems = [(m.name, ln, msg) for m in P.mods.values() for ln, msg in m.problems] + \
+               [('__init__', ln, msg) for ln, msg in P.init_problems]
+    report['module_problems'] = problems
+    t0 = Tr(P, next(iter(P.fns.values())))
+    k = 0
+    for q in sorted(P.fns):
+        f = P.fns[q]
+        tr = Tr(P, f)
+        gens, dicts, calls = tr.specials(f)
+        own = sorted(P.owndicts.get(q, set()))
+        dps = [d for d in dicts if d not in own]
+        int_ok = any(g in f.all_params for g in gens)
+        cal = [(p, tr.fdef_of(f, p)) for p in calls]
+        ident = f'fn_{k}'
+        k += 1
+        names.append(ident)
+        lines.append(f'Definition {ident} : fn := mkfn {cstr(q)} {"true" if f.exported else "false"} '
+                     f'{clist(cstr(g) for g in gens)} {"true" if int_ok else "false"} '
+                     f'{clist(cstr(d) for d in own)} {clist(cstr(d) for d in dps)} '
+                     f'{clist(f"({cstr(p)}, {c_fdef(d)})" for p, d in cal)}\n  ({c_cmd(f.body_cmd, 4)}).')
+        fl = unknowns(f.body_cmd, [])
+        report['functions'].append(dict(name=q, line=f.line, file=os.path.relpath(f.module.path, P.repo), exported=f.exported,
+                                        seeds=gens, own_dicts=own, dict_params=dps, callables=[[p, list(d)] for p, d in cal]))
+        for e in fl:
+            if e[0] == 'Unknown':
+                report['flagged'].append(dict(fn=q, event='Unknown', msg=e[1]))
+            else:
+                s = P.sites[e[1]]
+                report['flagged'].append(dict(fn=q, event='GlobalDraw', file=s['file'], line=s['line'], msg=s['what']))
+        if f.exported and f.parent is None and any(g in f.all_params for g in gens):
+            report['seeded_exported'].append(q)
+    # module level problems become a pseudo function that can never pass
+    if problems:
+        body = seq([('ev', ('Unknown', f'{m}:{ln}: {msg}')) for m, ln, msg in problems])
+        lines.append(f'Definition fn_module_level : fn := mkfn "<module level>" true [] false [] [] []\n  ({c_cmd(body, 4)}).')
+        names.append('fn_module_level')
+        for m, ln, msg in problems:
+            report['flagged'].append(dict(fn='<module level>', event='Unknown', msg=f'{m}:{ln}: {msg}'))
+    uni = universe(P)
+    report['universe'] = [[list(l), ks] for l, ks in uni]
+    lines.append('')
+    lines.append('(* keys the library can store in each default dictionary (certificate; every write is checked against it) *)')
+    lines.append('Definition universe_tbl : list (dloc * list string) :=\n  ' +
+                 clist(f'(({cstr(l[0])}, {cstr(l[1])}), {clist(cstr(k) for k in ks)})' for l, ks in uni) + '.')
+    lines.append('Definition universe (l : dloc) : list string := match lookup_loc universe_tbl l with Some ks => ks | None => [] end.')
+    lines.append('')
+    lines.append('Definition api : list fn :=\n  ' + clist(names) + '.')
+    lines.append('')
+    return '\n'.join(lines) + '\n', report
+
+
+def generate(repo, out_v, out_json=None):
+    P = translate(repo)
+    src, rep = emit(P)
+    os.makedirs(os.path.dirname(out_v), exist_ok=True)
+    old = open(out_v).read() if os.path.exists(out_v) else None
+    if old != src:
+        open(out_v, 'w').write(src)
+    if out_json:
+        json.dump(rep, open(out_json, 'w'), indent=1)
+    return rep
+
+
+if __name__ == '__main__':
+    import sys
+    repo = sys.argv[1] if len(sys.argv) > 1 else '/repo'
+    rep = generate(repo, sys.argv[2] if len(sys.argv) > 2 else '/tmp/SkelC10.v', '/tmp/SkelC10.json')
+    print(len(rep['functions']), 'functions;', len(rep['sites']), 'sites;', len(rep['flagged']), 'flagged')
+    for f in rep['flagged']:
+        print('  FLAG', f)
+    for n in rep['notes']:
+        print('  note', n)
+    print('seeded exported:', rep['seeded_exported'])
